@@ -173,7 +173,7 @@ PROPS['C05'] = dict(
     kani_quick=['layout'],
     kani_thorough=['codec'],
     explanation='Page accounting, allocator and serialisation side (the tree-shape half is outside): the allocator never hands out a page that is pending, already allocated in this transaction or a header page, '
-                'and hands out the lowest free run or a fresh page (F1, T1: pages_wf / below_hwm invariants); freeing appends exactly the run to pending[tx], with exact multiset accounting '
+                'and hands out a free run (the code: the lowest) or, only when there is none, fresh pages (F1, T1: pages_wf / below_hwm invariants); freeing appends exactly the run to pending[tx], with exact multiset accounting '
                 '(F3, T2: pend_ms); release moves exactly the pending lists below the bound (F2); what is persisted is free + pending, sorted, with exact length (F4) in a freshly allocated free-list page '
                 'after the old run was freed, and the header publishes the allocator\'s high-water mark and that page (W1 w6, w8); every page written lies below the high-water mark inside the file (w1, w5); '
                 'a new file starts with two valid headers, an empty free-list page and an empty leaf (O1); node entries stay strictly ascending under insert/delete (N1); element headers and payloads '
